@@ -244,3 +244,35 @@ pub fn term_text(t: Option<bool>) -> &'static str {
         Some(false) => "SilverWin",
     }
 }
+
+
+/// A `log` logger at Trace level that really formats every record (into a byte count): a client
+/// that turns on trace logging must get the same guarantees (C19: no panic; C20: no stack growth)
+/// from whatever the engine logs.
+struct CountingLogger;
+pub static LOGGED_BYTES: std::sync::atomic::AtomicU64 = std::sync::atomic::AtomicU64::new(0);
+impl log::Log for CountingLogger {
+    fn enabled(&self, _: &log::Metadata) -> bool {
+        true
+    }
+    fn log(&self, record: &log::Record) {
+        use std::fmt::Write;
+        struct Count(u64);
+        impl Write for Count {
+            fn write_str(&mut self, s: &str) -> std::fmt::Result {
+                self.0 += s.len() as u64;
+                Ok(())
+            }
+        }
+        let mut c = Count(0);
+        let _ = write!(c, "{}", record.args());
+        LOGGED_BYTES.fetch_add(c.0, std::sync::atomic::Ordering::Relaxed);
+    }
+    fn flush(&self) {}
+}
+pub fn install_trace_logger() {
+    static L: CountingLogger = CountingLogger;
+    if log::set_logger(&L).is_ok() {
+        log::set_max_level(log::LevelFilter::Trace);
+    }
+}
